@@ -11,6 +11,45 @@ from effects import locate
 from framework import Check
 
 
+def rule_static_product(ck, control):
+    """static-product-extents: C(N x M) = A(N x K) * B(K x M).  In the instantiation with three distinct extents (tus/controls.cpp: 2 x 3 times
+    3 x 4) every index of an element access a(., .), b(., .), c(., .) is a loop variable whose loop runs to the extent of that dimension of
+    that matrix - in particular the contraction index runs to K, the number of columns of the left factor, not to N."""
+    import re
+    ck.rule('static-product-extents', 'static_matrix product: every index of a(i,k), b(k,j), c(i,j) is bounded by the extent of its dimension (rows / columns of that operand); decided on '
+                                      'an instantiation with three distinct extents', 1)
+    for f in control.funcs:
+        if f.q != 'amgcl::operator*' or len(f.params) != 2 or f.body is None:
+            continue
+        dims = []
+        for p in f.params:
+            m = re.search(r'static_matrix<[^,]+, (\d+), (\d+)>', control.type(f.decl(p).get('ct')))
+            dims.append((int(m.group(1)), int(m.group(2))) if m else None)
+        if None in dims or len({dims[0][0], dims[0][1], dims[1][1]}) != 3:
+            continue
+        ext = {f.params[0]: dims[0], f.params[1]: dims[1]}
+        bounds = {}
+        for n in f.nodes.values():
+            if n['k'] == 'for' and n.get('c') is not None:
+                c = unwrap(n['c'])
+                if c['k'] == 'bin' and c['op'] in ('<', '!=') and unwrap(c['x'])['k'] == 'ref' and unwrap(c['y'])['k'] == 'lit':
+                    bounds[unwrap(c['x'])['d']] = int(unwrap(c['y'])['v'])
+        for n in sorted((x for x in f.nodes.values() if x['k'] in ('call', 'opcall') and x.get('op') == '()' and len(x.get('a', [])) == 2 and x.get('obj') is not None), key=lambda x: x['i']):
+            o = unwrap(n['obj'])
+            if o is None or o['k'] != 'ref':
+                continue
+            e = ext.get(o['d'], (dims[0][0], dims[1][1]) if f.decl(o['d']).get('k') == 'local' else None)
+            if e is None:
+                continue
+            bad = []
+            for which, a in enumerate(n['a']):
+                a = unwrap(a)
+                b = bounds.get(a['d']) if a is not None and a['k'] == 'ref' else None
+                if b is None or b != e[which]:
+                    bad.append('%s index `%s` of `%s` runs to %s, the %s of `%s` is %d' % (('row', 'column')[which], show(a), show(n), b, ('row count', 'column count')[which], f.decl(o['d'])['n'], e[which]))
+            ck.ob('static-product-extents', 'operator*|%s|%s' % (f.decl(o['d'])['n'], show(n).replace(' ', '')), f.where(n), not bad, '; '.join(bad))
+
+
 def main(tier):
     ck = Check('C16', tier, 'C16 (clause): skyline LU reports a zero pivot by an exception.')
     T = os.path.join(ir.VERIF, 'tus')
@@ -85,6 +124,7 @@ def main(tier):
     rule_narrowing(ck, units)
     import coverage
     cu_ = ir.run_units([dict(name='controls', src=os.path.join(ir.VERIF, 'tus', 'controls.cpp'))], 'C16c')
+    rule_static_product(ck, cu_['controls'])
     coverage.rule_cover(ck, units, control=cu_['controls'])      # a member that is only resize()d is rebuilt without a gap (QR workspace; shared by C09 / C15 / C16)
     ck.assumptions += ['exactness of LU / inverse / QR / static-matrix algebra and Cuthill-McKee being a permutation are not decided (numerical / combinatorial)']
     return ck.finish()
